@@ -26,6 +26,9 @@ type ExtOpts struct {
 	NoFileFilters   bool
 	ReverseMetadata bool // list blocks in metadata in reverse offset order
 	FPR             float64
+	// ReverseSections lays the filter sections out inside the region in the reverse of the
+	// block (row data) order; every block still points at its own section.
+	ReverseSections bool
 }
 
 func buildFilter(entries []string, p float64) *bloom.BloomFilter {
@@ -87,7 +90,12 @@ func BuildFile(blocks []ExtBlock, o ExtOpts) ([]byte, *bs.FileMetadata, error) {
 		}
 	}
 	md.BlockFilterRegionOffset = out.Len()
-	for i, sec := range sections {
+	for k := range sections {
+		i := k
+		if o.ReverseSections {
+			i = len(sections) - 1 - k
+		}
+		sec := sections[i]
 		if len(sec) > 0 {
 			md.DataBlocks[i].BloomFilterOffset = out.Len()
 			md.DataBlocks[i].BloomFilterSize = len(sec)
